@@ -37,22 +37,28 @@ var synthDepth int
 
 const synthMaxDepth = 7
 
-type namer map[string]int
+type namer struct {
+	used map[string]int
+	last string
+}
 
-func (nm namer) pick(b uint64) string {
+func (nm *namer) pick(b uint64) string {
 	n := synthNames[int(b)%len(synthNames)]
-	nm[n]++
-	if c := nm[n]; c > 1 {
+	nm.used[n]++
+	if c := nm.used[n]; c > 1 {
 		// struct names must be unique (AddChild is fatal otherwise)
-		return fmt.Sprintf("%s_%d", n, c)
+		n = fmt.Sprintf("%s_%d", n, c)
 	}
+	nm.last = n
 	return n
 }
+
+var synthHazards int // decode errors raised on purpose in the current decode (for the statistics)
 
 func synthBody(d *decode.D) {
 	synthDepth++
 	defer func() { synthDepth-- }()
-	nm := namer{}
+	nm := &namer{used: map[string]int{}}
 	for d.BitsLeft() >= 8 {
 		op := d.U8() // an unnamed read: these bytes end up in gap fields
 		if synthDepth >= synthMaxDepth && op&7 >= 3 {
@@ -60,11 +66,23 @@ func synthBody(d *decode.D) {
 		}
 		switch op & 7 {
 		case 0:
+			if op == 0xf8 {
+				// a decode error in the middle of a compound, after fields were added: the partial tree is kept
+				synthHazards++
+				d.Fatalf("synthetic failure")
+			}
 			if synthDepth > 1 && op&0x30 == 0 {
 				return
 			}
 			d.FieldValueUint(nm.pick(op>>3), 0) // synthetic value (no range)
 		case 1:
+			if op&0xe0 == 0xe0 && nm.last != "" {
+				// a data-driven field name that repeats: in a struct AddChild raises `"x" already exist in
+				// struct` (the decode stops, the partial tree is kept); in an array duplicates are normal
+				synthHazards++
+				d.FieldU8(nm.last)
+				break
+			}
 			d.FieldU8(nm.pick(op >> 3))
 		case 2:
 			k := d.U8()
@@ -90,10 +108,18 @@ func synthBody(d *decode.D) {
 			}
 			d.SeekRel(k)
 		case 6:
-			k := int64(d.U8()%12) * 8
+			kb := d.U8()
+			k := int64(kb%12) * 8
 			g := synthGroup
 			if op&0x80 != 0 {
 				g = synthArrGroup
+			}
+			if kb >= 0xc0 {
+				// d.Format merges the children of a nested decode of the REST of the buffer into this
+				// compound: in a struct a name that is already there collides (`already exist` error)
+				synthHazards++
+				d.Format(g, nil)
+				break
 			}
 			d.FieldFormatLen(nm.pick(op>>3), k, g, nil)
 		case 7:
